@@ -230,6 +230,28 @@ func RunTree(r *vh.Run, rng *vh.RNG, name string, t *chainx.Tree, sched [][]int)
 		case !moved && got != 0:
 			c.Oracle("notified-without-tip-change", "%d notification(s) although the tip stayed at %s (result %s)", got, idxStr(t, beforeTip), res)
 		}
+		if strings.Contains(name, "/oldformat") && bi == len(sched)/2 {
+			// the store was written by the previous release: its v2 blocks above the require height
+			// are still in the previous record layout (migrateDB leaves them so); the node is reopened
+			// on it and everything goes on — subscribers wherever they are
+			if err := nd.Store.Flush(); err == nil {
+				n, rerr := chainx.RewriteBlocksV2(nd.DB, t.Net.N.HardforkV2.RequireHeight)
+				nd2, oerr := t.Net.NewNode(nd.DB)
+				if rerr != nil || oerr != nil {
+					c.Oracle("reopen-error", "rewriting %d records / reopening the store failed: %v %v", n, rerr, oerr)
+				} else {
+					before := c01.Observe(t, nd, "ok")
+					nd2.Reorgs = nd.Reorgs
+					nd = nd2
+					if after := c01.Observe(t, nd, "ok"); after != before {
+						c.Oracle("restart-changed-chain", "before: %s; after reopening on the old-format records: %s", before, after)
+					}
+					if n > 0 {
+						c.Tags = append(c.Tags, "old-format-block-records")
+					}
+				}
+			}
+		}
 		if strings.Contains(name, "/pruned") && bi == len(sched)/2 {
 			// the operator prunes once every subscriber has processed the chain so far (PruneBlocks'
 			// contract): all subscribers catch up, then every body below the tip's height + 1 goes;
@@ -345,6 +367,11 @@ func Run(r *vh.Run) {
 			runListenerChurn(r, trng, fmt.Sprintf("tree%d/listener-churn", i), t)
 		}
 		runGated(r, trng, fmt.Sprintf("tree%d/gated-poll", i), t)
+		// a store with block records in the previous layout (only matters once v2 blocks above the
+		// require height exist)
+		if i%2 == 1 && net.N.HardforkV2.RequireHeight < 20 {
+			RunTree(r, trng, fmt.Sprintf("tree%d/oldformat", i), t, t.Schedule(trng))
+		}
 		// pruning under caught-up subscribers, old blocks offered again afterwards
 		if i%2 == 0 {
 			sched := t.Schedule(trng)
